@@ -3,8 +3,10 @@
 package main
 
 import (
+	"bytes"
 	"fmt"
 	"reflect"
+	"strings"
 
 	"github.com/segmentio/encoding/thrift"
 )
@@ -42,6 +44,21 @@ type tEmbOuterC struct {
 	Score float64 `thrift:"5"`
 	tEmbTail
 }
+
+// deeper embedding: the promoted fields sit two and three anonymous levels below the outer struct
+type tEmbMid1 struct{ TEmbHeaderX }
+type TEmbMid2 struct{ tEmbMid1 }
+type tEmbMid3 struct{ *TEmbMid2 }
+type tEmbOuterD struct {
+	TEmbMid2
+	Name  string  `thrift:"4"`
+	Score float64 `thrift:"5"`
+}
+type tEmbOuterE struct {
+	Name string `thrift:"4"`
+	tEmbMid3
+	Score float64 `thrift:"5"`
+}
 type tEmbFlat struct {
 	ID      int64   `thrift:"1"`
 	Version int32   `thrift:"2,required"`
@@ -71,6 +88,12 @@ func tEmbed(kind int, seed uint64, p string) {
 	case 1:
 		outer = &tEmbOuterB{TEmbHeaderX(h), flat.Name, flat.Score}
 		back = func() any { return &tEmbOuterB{} }
+	case 3:
+		outer = &tEmbOuterD{TEmbMid2{tEmbMid1{TEmbHeaderX(h)}}, flat.Name, flat.Score}
+		back = func() any { return &tEmbOuterD{} }
+	case 4:
+		outer = &tEmbOuterE{flat.Name, tEmbMid3{&TEmbMid2{tEmbMid1{TEmbHeaderX(h)}}}, flat.Score}
+		back = func() any { return &tEmbOuterE{} }
 	default:
 		flat.Flag = r.n(2) == 0
 		for i := r.n(4); i > 0; i-- {
@@ -116,6 +139,9 @@ func flattenForCompare(v reflect.Value) []string {
 	var out []string
 	for i := 0; i < v.NumField(); i++ {
 		f := v.Field(i)
+		if f.Kind() == reflect.Ptr && !f.IsNil() && f.Elem().Kind() == reflect.Struct {
+			f = f.Elem()
+		}
 		switch f.Kind() {
 		case reflect.Struct:
 			out = append(out, flattenForCompare(f)...)
@@ -135,7 +161,7 @@ func c04Embedded() {
 	}
 	for i := 0; i < n; i++ {
 		seed := rnd()
-		for kind := 0; kind < 3; kind++ {
+		for kind := 0; kind < 6; kind++ {
 			for _, p := range tprotos {
 				tEmbed(kind, seed, p)
 			}
@@ -144,6 +170,187 @@ func c04Embedded() {
 }
 
 // long lists: the decoders allocate at most maxPreallocatedElems (1024) elements up front and grow while decoding
+// long strings (the readers switch to a chunked path above 4096 bytes) and enum-tagged integers of every width
+func c04LongStringsAndEnums() {
+	t := ttyFromSx(parseSx("(struct (f 1 0 i64) (f 2 0 str) (f 3 0 (list str)) (f 4 0 bytes) (f 5 0 i32))"))
+	for _, n := range []int{4095, 4096, 4097, 5000, 70000} {
+		big := bytes.Repeat([]byte("abcdefghij"), n/10+1)[:n]
+		v := &tval{k: tStruct, elems: []*tval{{k: tI64, i: int64(n)}, {k: tStr, s: big}, {k: tList, elems: []*tval{{k: tStr, s: []byte("hello")}, {k: tStr, s: big}, {k: tStr, s: []byte("end")}}}, {k: tBytes, s: big[:n/2+1]}, {k: tI32, i: 7}}}
+		for _, p := range tprotos {
+			tRoundTrip(t, v, p)
+		}
+	}
+	// flag 1 = enum, 4 = required; enum on other widths than i32 is outside the universe of the Coq model
+	c04Enums(false)
+}
+
+// c04Enums: enum-tagged integer fields of every width (round trips under C04, encodings against the specification
+// under C13)
+func c04Enums(encode bool) {
+	tFnSuffix = ".x"
+	defer func() { tFnSuffix = "" }()
+	te := ttyFromSx(parseSx("(struct (f 1 5 i64) (f 2 1 int) (f 3 5 i32) (f 4 1 i16) (f 5 1 i8) (f 6 0 i64))"))
+	for _, x := range []int64{0, 1, -1, 3, 127, -128, 1000, -30000, 2147483647, -2147483648} {
+		clip := func(lo, hi int64) int64 {
+			if x < lo {
+				return lo
+			}
+			if x > hi {
+				return hi
+			}
+			return x
+		}
+		v := &tval{k: tStruct, elems: []*tval{{k: tI64, i: x}, {k: tInt, i: x}, {k: tI32, i: x}, {k: tI16, i: clip(-32768, 32767)}, {k: tI8, i: clip(-128, 127)}, {k: tI64, i: x * 3}}}
+		for _, p := range tprotos {
+			if encode {
+				tEncode(te, v, p)
+			} else {
+				tRoundTrip(te, v, p)
+			}
+		}
+	}
+}
+
+// c08LongTruncated: top-level strings, byte slices, lists and maps of strings longer than the 4096-byte chunk of the
+// readers, cut anywhere inside the payload: unexpected EOF, never a shortened value
+func c08LongTruncated() {
+	for _, n := range []int{4097, 4800, 9000} {
+		big := string(bytes.Repeat([]byte("abcdefghij"), n/10+1)[:n])
+		vals := []any{big, []byte(big), []string{"x", big}, map[string]string{"k": big}}
+		for vi, v := range vals {
+			for _, p := range tprotos {
+				full, err := thrift.Marshal(tproto(p), v)
+				if err != nil {
+					continue
+				}
+				for _, cut := range []int{len(full) - 1, len(full) - 2, len(full) - n/2, len(full) - n + 1, len(full) - n + 4096, len(full) - n + 4097} {
+					if cut <= 0 || cut >= len(full) || !mine() {
+						skip()
+						continue
+					}
+					args := fmt.Sprintf("%d %d %s %d", n, vi, p, cut)
+					impl := guarded(func() string {
+						y := reflect.New(reflect.TypeOf(v))
+						err := thrift.Unmarshal(tproto(p), full[:cut], y.Interface())
+						if err == nil {
+							return fmt.Sprintf("ACCEPTED a truncated input (%d of %d bytes)", cut, len(full))
+						}
+						return "err:" + tErrClass(err)
+					})
+					emit("t.longcut", args, impl, "err:ueof")
+				}
+			}
+		}
+	}
+}
+
+// c13Messages: message headers against the specifications. Binary, strict: the version word 0x8001 and the message
+// type in one big-endian int32, the name as a string, the sequence id; binary, non-strict writer: name, type byte,
+// sequence id (a reader accepts both forms whatever its own setting). Compact: protocol id 0x82, one byte holding the
+// version (1) in the low five bits and the type in the high three, the sequence id as a varint of the 32-bit value,
+// the name. Message types are Call=1, Reply=2, Exception=3, Oneway=4 on the wire. Writers and readers round trip.
+// Recorded deviations are reproduced (msghdr: types numbered from 0, version bits absent in both protocols, compact
+// type in the low bits), so that any OTHER difference is reported.
+func c13Messages() {
+	names := []string{"", "ping", "a-method-name-of-more-than-sixteen-bytes", string(bytes.Repeat([]byte("n"), 300))}
+	uvar := func(b []byte, u uint64) []byte {
+		for u >= 0x80 {
+			b = append(b, byte(u)|0x80)
+			u >>= 7
+		}
+		return append(b, byte(u))
+	}
+	be32 := func(b []byte, u uint32) []byte { return append(b, byte(u>>24), byte(u>>16), byte(u>>8), byte(u)) }
+	header := func(p, name string, typ int, seq int32, dev bool) []byte {
+		wire := typ + 1 // the specification's numbering
+		if dev {
+			wire = typ
+		}
+		var b []byte
+		switch p {
+		case "bs":
+			v := uint32(0x80010000)
+			if dev {
+				v = 0x80000000
+			}
+			b = be32(b, v|uint32(wire&7))
+			b = append(be32(b, uint32(len(name))), name...)
+			b = be32(b, uint32(seq))
+		case "bn":
+			b = append(be32(b, uint32(len(name))), name...)
+			b = append(b, byte(wire))
+			b = be32(b, uint32(seq))
+		default:
+			if dev {
+				b = append(b, 0x82, byte(wire))
+				b = uvar(b, uint64(uint32(seq)))
+			} else {
+				b = append(b, 0x82, byte(1|wire<<5))
+				b = uvar(b, uint64(uint32(seq)))
+			}
+			b = append(uvar(b, uint64(len(name))), name...)
+		}
+		return b
+	}
+	for _, name := range names {
+		for typ := 0; typ < 4; typ++ {
+			for _, seq := range []int32{0, 1, 42, 127, 128, -1, 2147483647, -2147483648} {
+				for _, p := range tprotos {
+					if !mine() {
+						skip()
+						continue
+					}
+					args := fmt.Sprintf("%s %d %d %s", hexs([]byte(name)), typ, seq, p)
+					m := thrift.Message{Type: thrift.MessageType(typ), Name: name, SeqID: seq}
+					impl := guarded(func() string {
+						var buf bytes.Buffer
+						if err := tproto(p).NewWriter(&buf).WriteMessage(m); err != nil {
+							return "err:write"
+						}
+						out := hexs(buf.Bytes())
+						readers := []string{p}
+						if p == "bs" {
+							readers = append(readers, "bn")
+						} else if p == "bn" {
+							readers = append(readers, "bs")
+						}
+						for _, rp := range readers {
+							got, err := tproto(rp).NewReader(bytes.NewReader(buf.Bytes())).ReadMessage()
+							switch {
+							case err != nil:
+								out += " " + rp + ":err"
+							case got != m:
+								out += fmt.Sprintf(" %s:%+v", rp, got)
+							default:
+								out += " " + rp + ":same"
+							}
+						}
+						return out
+					})
+					tail := " " + p + ":same"
+					if p == "bs" {
+						tail += " bn:same"
+					} else if p == "bn" {
+						tail += " bs:same"
+					}
+					spec := hexs(header(p, name, typ, seq, false)) + tail
+					orc := spec
+					if impl != spec {
+						devs := "msghdr"
+						if impl == hexs(header(p, name, typ, seq, true))+tail {
+							orc = "spec=" + spec + " known-deviations=" + devs
+						}
+					}
+					if len(impl) > 300 {
+						impl, orc = fmt.Sprintf("len=%d h=%x", len(impl), fnv(impl)), strings.Replace(orc, spec, fmt.Sprintf("len=%d h=%x", len(spec), fnv(spec)), 1)
+					}
+					emit("t.msg", args, impl, orc)
+				}
+			}
+		}
+	}
+}
+
 func c04LongLists() {
 	t := ttyFromSx(parseSx("(struct (f 1 0 (list i64)) (f 2 0 (list str)) (f 3 0 i32))"))
 	sizes := []int{1023, 1024, 1025, 2048, 2049, 5000}
